@@ -7,7 +7,6 @@
 use std::borrow::Cow;
 
 use nom::{
-    branch::alt,
     bytes::streaming::{tag, tag_no_case},
     character::streaming::space1,
     combinator::map,
@@ -62,11 +61,17 @@ pub(crate) fn quota_resource(i: &[u8]) -> IResult<&[u8], QuotaResource> {
 }
 
 pub(crate) fn quota_resource_name(i: &[u8]) -> IResult<&[u8], QuotaResourceName> {
-    alt((
-        map(tag_no_case("STORAGE"), |_| QuotaResourceName::Storage),
-        map(tag_no_case("MESSAGE"), |_| QuotaResourceName::Message),
-        map(map(astring_utf8, Cow::Borrowed), QuotaResourceName::Atom),
-    ))(i)
+    // Classify the complete name, so that a longer name which merely starts
+    // with a known one (`MESSAGES`) is still an ordinary resource name.
+    map(astring_utf8, |name| {
+        if name.eq_ignore_ascii_case("STORAGE") {
+            QuotaResourceName::Storage
+        } else if name.eq_ignore_ascii_case("MESSAGE") {
+            QuotaResourceName::Message
+        } else {
+            QuotaResourceName::Atom(Cow::Borrowed(name))
+        }
+    })(i)
 }
 
 /// 5.2. QUOTAROOT Response
